@@ -219,7 +219,37 @@ func (p *Panic) String() string {
 	if p.Exit {
 		k = "exit"
 	}
-	return fmt.Sprintf("%s at %s: %v", k, p.Site, p.Val)
+	return fmt.Sprintf("%s at %s: %s", k, p.Site, normMsg(fmt.Sprint(p.Val)))
+}
+
+// normMsg removes the variable parts (numbers, bracketed values, quoted text)
+// of a panic message so that one defect has one signature.
+func normMsg(m string) string {
+	var sb strings.Builder
+	depth := 0
+	for _, r := range m {
+		switch {
+		case r == '[':
+			depth++
+		case r == ']':
+			if depth > 0 {
+				depth--
+			}
+		case depth > 0:
+		case r >= '0' && r <= '9':
+			sb.WriteByte('N')
+		default:
+			sb.WriteRune(r)
+		}
+	}
+	out := sb.String()
+	for strings.Contains(out, "NN") {
+		out = strings.ReplaceAll(out, "NN", "N")
+	}
+	if len(out) > 100 {
+		out = out[:100]
+	}
+	return strings.TrimSpace(out)
 }
 
 // Try runs f and converts a panic into a value.
